@@ -33,6 +33,8 @@ def run(c):
         "SMTPUTF8 negotiation: message WITH / WITHOUT the SMTPUTF8 flag (MsgMetadata.SMTPOpts.UTF8) x next hop without SMTPUTF8 / offering it / offering it and enforcing RFC 6531 section 3.4 "
         "(non-ASCII RCPT refused unless MAIL FROM carried the parameter) x order of ASCII / IDN-domain-only (convertible) / non-ASCII-local-part (no ASCII form; also on the U-label and A-label connections) "
         "recipients on ONE connection: k accepted plain recipients first, then the non-ASCII local part (accepted or refused by the next hop), then more of either kind, in order or shuffled, on fresh and pooled connections; "
+        "RFC 1870 SIZE announcements per recipient domain (per connection, fresh and pooled): a limit smaller than the message (enforced by the next hop: 552 after the data), "
+        "exactly the message size, far bigger, no fixed limit, not offered, next hops that do not announce 8BITMIME for a message with 8-bit content - in deliveries spanning several recipient domains, so that one next hop refuses the message while others take it; "
         "ground truth = what the next hop holds in transactions it answered 250; "
         "LMTP next hop through the real target.lmtp with per-recipient statuses (by position, respelled mailboxes, exact duplicates each with its own reply and followed by recipients whose reply differs, replies cut off, faults under RCPT); "
         "pipeline reverse translation with 1-to-N rewrites and rewrite results that are themselves client-supplied recipients (chains, swaps), "
@@ -47,6 +49,10 @@ def run(c):
         "destination blocks, next to a per-recipient target), in the outer and in the nested pipeline, crossed with every recipient-list family above and with MANY-TO-ONE recipient lists "
         "(an alias together with the mailbox it is rewritten to, two or three aliases of one fresh or client-supplied mailbox, two spellings normalised to one, chains ending in a supplied mailbox, "
         "two such groups, inside 1-to-N expansions, with repeated client addresses, many-to-one rewrites inside the nested pipeline): one failure per effective recipient under exactly the address the client supplied; "
+        "recipients REFUSED at AddRcpt time with the session going on (as after a 5xx to RCPT TO): the per-recipient target refuses the k-th call for an effective address "
+        "(the repetition of a rewritten recipient it accepted before, one address of a 1-to-N expansion after it took another, any address at any call), a SECOND target of the destination block "
+        "refuses after the first one took the address, rejecting per-address destination blocks (reject directive) for an address of the expansion, also with the body stage failing for the whole delivery "
+        "(results generated by the pipeline from delivery.recipients); accepted calls are due their results under the client-supplied address, whatever a refused call left in the target may only be reported under a client-supplied address; "
         "status keys and values seen by a recording StatusCollector compared with the model; distinct = distinct histories",
         explanation="theorems over all histories/pools/recipient lists; model tied to smtpconn/remote/smtp_downstream by differential runs against scripted servers",
         search=search,
